@@ -259,19 +259,27 @@ func c09r8(c *Ctx) {
 			if check(e) {
 				return true
 			}
-			if id, ok := prog.Unparen(e).(*ast.Ident); ok {
+			var viaLocal func(e ast.Expr, depth int) bool
+			viaLocal = func(e ast.Expr, depth int) bool {
+				if check(e) {
+					return true
+				}
+				id, ok := prog.Unparen(e).(*ast.Ident)
+				if !ok || depth > 3 {
+					return false
+				}
 				defs := f.DefsOfPath(id)
 				if len(defs) == 0 {
 					return false
 				}
 				for _, d := range defs {
-					if d.Rhs == nil || !check(d.Rhs) {
+					if d.Rhs == nil || !viaLocal(d.Rhs, depth+1) {
 						return false
 					}
 				}
 				return true
 			}
-			return false
+			return viaLocal(e, 0)
 		}
 		n, bad := 0, ""
 		for _, a := range f.CallsTo("cmem.CArray.Alloc") {
@@ -392,7 +400,7 @@ func c06r8(c *Ctx) {
 		ok := len(exits) >= 1
 		for _, e := range exits {
 			g := f.GuardsAt(e.Expr)
-			if len(g) != 1 || !prog.AtomCmp(g[0], token.EQL, prog.IsObj(info, level), prog.IsConstNamed(info, "loghub.FATAL")) {
+			if len(g) != 1 || !(prog.AtomCmp(g[0], token.EQL, prog.IsObj(info, level), prog.IsConstNamed(info, "loghub.FATAL")) || prog.AtomCmp(g[0], token.GEQ, prog.IsObj(info, level), prog.IsConstNamed(info, "loghub.FATAL"))) {
 				ok = false
 			}
 		}
@@ -493,20 +501,32 @@ func c15r9(c *Ctx) {
 		return
 	}
 	info := f.Info()
-	loops := topLoops(f)
-	if len(loops) != 1 {
+	var l ast.Stmt
+	okCond := false
+	nLoops := 0
+	ast.Inspect(f.Decl.Body, func(x ast.Node) bool {
+		switch s := x.(type) {
+		case *ast.ForStmt:
+			nLoops++
+			l = s
+			// condition: i < len(path) and nothing else
+			if be, ok := prog.Unparen(s.Cond).(*ast.BinaryExpr); ok && be.Op == token.LSS {
+				if call, isC := prog.Unparen(be.Y).(*ast.CallExpr); isC {
+					if id, isI := call.Fun.(*ast.Ident); isI && id.Name == "len" {
+						okCond = true
+					}
+				}
+			}
+		case *ast.RangeStmt:
+			nLoops++
+			l = s
+			okCond = true
+		}
+		return true
+	})
+	if nLoops != 1 {
 		c.undec(R, f.Key, "expected one loop over the path digits")
 		return
-	}
-	l := loops[0]
-	// condition: i < len(path) and nothing else
-	okCond := false
-	if be, ok := prog.Unparen(l.Cond).(*ast.BinaryExpr); ok && be.Op == token.LSS {
-		if call, isC := prog.Unparen(be.Y).(*ast.CallExpr); isC {
-			if id, isI := call.Fun.(*ast.Ident); isI && id.Name == "len" {
-				okCond = true
-			}
-		}
 	}
 	var shiftObj types.Object
 	okStart, okStep, okOr := false, false, false
